@@ -236,8 +236,101 @@ func builtinIntrinsics() map[string]Intrinsic {
 	m[RepoModule+"/internal/safehtmlutil.Indirect"] = inIndirect
 	m[RepoModule+"/internal/safehtmlutil.indirectToStringerOrError"] = inIndirectToStringer
 	m[RepoModule+"/template.indirectToStringerOrError"] = inIndirectToStringer
-	m["(*sync.Mutex).Lock"] = noop
-	m["(*sync.Mutex).Unlock"] = noop
+	// sync.Mutex in a single goroutine: the state field records whether the mutex is held;
+	// locking a held mutex (the call would block forever) and unlocking a free one are reported
+	mutexState := func(s *State, p Ptr) *smt.Term {
+		sv, ok := s.load(p).(*StructVal)
+		if !ok || len(sv.F) == 0 {
+			unsupported("sync.Mutex with unexpected representation")
+		}
+		st, ok := sv.F[0].(*smt.Term)
+		if !ok {
+			unsupported("sync.Mutex with unexpected state field")
+		}
+		return st
+	}
+	mutexSet := func(p Ptr, held bool) func(cs *State) {
+		return func(cs *State) {
+			sv := cs.load(p).(*StructVal)
+			n := &StructVal{F: append([]Value(nil), sv.F...)}
+			v := uint64(0)
+			if held {
+				v = 1
+			}
+			n.F[0] = smt.Const(sv.F[0].(*smt.Term).W, v)
+			cs.store(p, n)
+		}
+	}
+	m["(*sync.Mutex).Lock"] = func(x *Exec, s *State, a []Value, _ *ssa.Call) []Outcome {
+		p := a[0].(Ptr)
+		st := mutexState(s, p)
+		free := x.Ctx.Eq(st, smt.Const(st.W, 0))
+		return []Outcome{{Cond: free, Then: mutexSet(p, true)},
+			{Cond: x.Ctx.Not(free), Panic: "deadlock: sync.Mutex.Lock on a mutex that is already held (an earlier call returned without unlocking)"}}
+	}
+	m["(*sync.Mutex).Unlock"] = func(x *Exec, s *State, a []Value, _ *ssa.Call) []Outcome {
+		p := a[0].(Ptr)
+		st := mutexState(s, p)
+		free := x.Ctx.Eq(st, smt.Const(st.W, 0))
+		return []Outcome{{Cond: x.Ctx.Not(free), Then: mutexSet(p, false)}, {Cond: free, Panic: "sync: unlock of unlocked mutex"}}
+	}
+	m["(*sync.Mutex).TryLock"] = func(x *Exec, s *State, a []Value, _ *ssa.Call) []Outcome {
+		p := a[0].(Ptr)
+		st := mutexState(s, p)
+		free := x.Ctx.Eq(st, smt.Const(st.W, 0))
+		return []Outcome{{Cond: free, Val: smt.True, Then: mutexSet(p, true)}, {Cond: x.Ctx.Not(free), Val: smt.False}}
+	}
+	// registering the sanitizer functions with text/template's (reflection-based) executor has no
+	// effect on the analysis state the harnesses observe
+	m["(*text/template.Template).Funcs"] = func(x *Exec, s *State, a []Value, _ *ssa.Call) []Outcome {
+		if p, ok := a[0].(Ptr); ok && p.Obj == 0 {
+			return panicOutcome("nil pointer dereference ((*text/template.Template).Funcs on a nil template)")
+		}
+		return one(a[0])
+	}
+	// text/template's reflection-based executor is the environment of the template API: it is
+	// stubbed by its contract. Without a parse tree it returns an error and writes nothing;
+	// otherwise it writes an arbitrary byte string (one symbolic byte here, or nothing) and
+	// returns either nil or a run-time error raised after that partial output.
+	m["(*text/template.Template).Execute"] = func(x *Exec, s *State, a []Value, _ *ssa.Call) []Outcome {
+		tp, ok := a[0].(Ptr)
+		if !ok || tp.Obj == 0 {
+			return panicOutcome("nil pointer dereference ((*text/template.Template).Execute on a nil template)")
+		}
+		sv := s.load(tp).(*StructVal)
+		errVal := Iface{T: x.W.ErrType, V: x.W.newExt("error", nil)}
+		if tree, isP := sv.F[1].(Ptr); isP && tree.Obj == 0 {
+			return one(errVal) // "incomplete or empty template"
+		}
+		w, ok := a[1].(Iface)
+		if !ok || w.T == nil || w.T.String() != "*bytes.Buffer" {
+			unsupported("text/template Execute stub: writer %v", w.T)
+		}
+		bp := w.V.(Ptr)
+		s.StubN++
+		b := x.newBytes(fmt.Sprintf("exec_out%d", s.StubN), 2)
+		c := x.Ctx
+		// b[1] selects the behaviour: bit 0 = writes b[0], bit 1 = returns an error
+		wr := c.Eq(c.Bin(smt.OpBvAnd, b[1], smt.Byte(1)), smt.Byte(1))
+		fail := c.Eq(c.Bin(smt.OpBvAnd, b[1], smt.Byte(2)), smt.Byte(2))
+		// a data value of the harness type vExecData{Fail bool} decides the run-time error (its
+		// method M, called by the action {{.M}}, returns an error iff Fail): this keeps the
+		// stub's choice reproducible in the native replay
+		if d, isI := a[2].(Iface); isI && d.T != nil && strings.HasSuffix(d.T.String(), ".vExecData") {
+			if dv, isS := d.V.(*StructVal); isS && len(dv.F) == 1 {
+				if ft, isT := dv.F[0].(*smt.Term); isT {
+					fail = ft
+				}
+			}
+		}
+		out := Str{B: []*smt.Term{b[0]}}
+		return []Outcome{
+			{Cond: c.And(wr, fail), Val: errVal, Then: func(cs *State) { bufAppend(cs, bp, out) }},
+			{Cond: c.And(wr, c.Not(fail)), Val: Iface{}, Then: func(cs *State) { bufAppend(cs, bp, out) }},
+			{Cond: c.And(c.Not(wr), fail), Val: errVal},
+			{Cond: c.And(c.Not(wr), c.Not(fail)), Val: Iface{}},
+		}
+	}
 	m["(*sync.RWMutex).RLock"] = noop
 	m["(*sync.RWMutex).RUnlock"] = noop
 	m["(*sync.RWMutex).Lock"] = noop
@@ -1070,7 +1163,15 @@ func inSprintf(x *Exec, s *State, a []Value, _ *ssa.Call) []Outcome {
 	}
 	v := x.format(s, fstr, s.sliceElems(a[1].(Slice)))
 	if o, isO := v.(Opaque); isO && (strings.HasPrefix(o.Why, "Sprintf verb") || o.Why == "missing format operand" || o.Why == "bad format") {
-		return x.formatSym(s, fstr, s.sliceElems(a[1].(Slice)))
+		// a constant format the simple model does not cover: use the general model where it
+		// applies; otherwise the text stays unmodelled (an error description nobody inspects)
+		outs := x.formatSym(s, fstr, s.sliceElems(a[1].(Slice)))
+		for _, oc := range outs {
+			if oc.Cut != "" {
+				return one(v)
+			}
+		}
+		return outs
 	}
 	return one(v)
 }
@@ -1245,6 +1346,11 @@ func inFprintf(x *Exec, s *State, a []Value, _ *ssa.Call) []Outcome {
 	if conc {
 		if o, isO := x.format(s, a[1].(Str), s.sliceElems(a[2].(Slice))).(Opaque); isO && (strings.HasPrefix(o.Why, "Sprintf verb") || o.Why == "missing format operand" || o.Why == "bad format") {
 			conc = false
+			for _, oc := range x.formatSym(s, a[1].(Str), s.sliceElems(a[2].(Slice))) {
+				if oc.Cut != "" {
+					conc = true // keep the old behaviour (unsupported) rather than dropping the path
+				}
+			}
 		}
 	}
 	if !conc {
